@@ -200,6 +200,15 @@ def check_property(prop, tier, seed):
                 continue
             nfunc += 1
             nfunc_ok += 1 if f["success"] else 0
+            if not f["success"]:
+                # consistency guard: a function under a contract of THIS property that Verus did not verify must show up as a
+                # failed obligation of this property (or as undecided) - never be dropped by the attribution rules
+                short = f["function"].split("::", 1)[-1]
+                owns = [fn for fn in u.functions if prop in (fn["props"] or [prop]) and
+                        (fn["name"] == short or short in [f"{c}::call" for c in fn.get("closures", [])] or short.split("::")[0] in fn.get("closures", []))]
+                attributed = any(((d.info or {}).get("fn") or "") == short for d in failed)
+                if owns and not attributed and not r["undecided"]:
+                    undecided.append(f"{u.name}:{short} was not verified but no failed obligation is attributed to {prop} (attribution gap)")
             slow.append((f["ms"], f["function"]))
         c, smp = count_obligations(u, prop)
         for k in counts:
